@@ -13,6 +13,13 @@ package lcm
 //     held in the stub until the script releases it (ok / error / client side timeout / late effect);
 //     every record* call of a process goroutine is held at a gate (process.recorder is wrapped);
 //     a client interceptor logs rpc start/return per process.  Every log entry carries len(c.events).
+//     The STAGE at which an operation fails is varied: connection stage (the Drummer stub hands out
+//     the address of a replica that is down: "refused" = a reserved port nobody listens on,
+//     "silent" = a peer that accepts the TCP connection and never speaks; rounds SD / SM with a short
+//     deadline), session stage (GetSession fails with a status code / hangs until the client's
+//     deadline), data rpc (error before / after the effect, client side timeout).
+// (c) TestVerifRecorderText: hand-written log TEXTS (no trailing newline, CRLF, blank lines, long
+//     lines, ...) -> real porcupine.ParseJepsenLog (-> real CheckEvents when asked).
 //
 // Unexported identifiers used: Coordinator.{events,mu,processes,scheduleProcesses,record*},
 // process.{id,recorder,pool,isIdle,isStopped}, event{eventType,eventResult,id,value},
@@ -31,6 +38,7 @@ import (
 	"strings"
 	"sync"
 	"sync/atomic"
+	"syscall"
 	"testing"
 	"time"
 
@@ -198,6 +206,60 @@ func TestVerifRecorderFormat(t *testing.T) {
 	}
 }
 
+// ---------------------------------------------------------------- (c) log texts
+
+// parse (+ check) a given text through the real code; same result line as vRoundTrip
+func vParseText(text []byte, dir string, check bool) (res string) {
+	defer func() {
+		if r := recover(); r != nil {
+			res = "panic " + strings.ReplaceAll(fmt.Sprint(r), " ", "_") + " - chk=-"
+		}
+	}()
+	fn := filepath.Join(dir, "t.jepsen")
+	if err := os.WriteFile(fn, text, 0600); err != nil {
+		panic(err)
+	}
+	evs := porcupine.ParseJepsenLog(fn)
+	chk := "-"
+	if check {
+		if !vComplete(evs) {
+			chk = "skip"
+		} else {
+			t0 := time.Now()
+			ok := porcupine.CheckEventsTimeout(porcupine.GetEtcdModel(), evs, 5*time.Second)
+			if time.Since(t0) > 4900*time.Millisecond {
+				chk = "timeout"
+			} else if ok {
+				chk = "1"
+			} else {
+				chk = "0"
+			}
+		}
+	}
+	return fmt.Sprintf("ok - %s chk=%s", vPorcupineString(evs), chk)
+}
+
+func TestVerifRecorderText(t *testing.T) {
+	sc, w, done := vOpenIO(t)
+	defer done()
+	dir := t.TempDir()
+	for sc.Scan() {
+		f := strings.Fields(sc.Text())
+		if len(f) < 3 || f[0] != "T" {
+			continue
+		}
+		text := []byte{}
+		if f[2] != "-" {
+			var err error
+			if text, err = hex.DecodeString(f[2]); err != nil {
+				fmt.Fprintf(w, "F badhex - - chk=-\n")
+				continue
+			}
+		}
+		fmt.Fprintf(w, "F %s\n", vParseText(text, dir, f[1] == "1"))
+	}
+}
+
 // ---------------------------------------------------------------- (b) protocol
 
 type vIns struct {
@@ -251,6 +313,8 @@ type vH struct {
 	reg         uint64
 	has         bool
 	failSession int32 // 0: no; 1+c: fail the next GetSession with status code c
+	hangSession int32 // 1: the next GetSession does not answer before its client has given up
+	drummer     *vDrummer
 	sessions    map[uint64]*vSession
 	nextClient  uint64
 	shortRound  int32
@@ -320,10 +384,86 @@ func (r *vRec) recordReadCompleted(id uint64, value uint64) {
 type vDrummer struct {
 	pb.UnimplementedDrummerServer
 	addr string
+	mu   sync.Mutex
+	mode string            // "": the live replica; "D:<kind>": one replica, down; "M:<kind>": two replicas, one of them down
+	dead map[string]string // kind -> address of a replica that is down
+}
+
+func (d *vDrummer) setMode(m string) {
+	d.mu.Lock()
+	d.mode = m
+	d.mu.Unlock()
 }
 
 func (d *vDrummer) GetShardStates(ctx context.Context, req *pb.ShardStateRequest) (*pb.ShardStates, error) {
-	return &pb.ShardStates{Collection: []*pb.ShardState{{ShardId: 1, RPCAddresses: map[uint64]string{1: d.addr}}}}, nil
+	d.mu.Lock()
+	mode := d.mode
+	d.mu.Unlock()
+	addrs := map[uint64]string{1: d.addr}
+	if len(mode) > 2 {
+		if da, ok := d.dead[mode[2:]]; ok {
+			if mode[0] == 'D' {
+				addrs = map[uint64]string{1: da}
+			} else {
+				addrs = map[uint64]string{1: d.addr, 2: da}
+			}
+		}
+	}
+	return &pb.ShardStates{Collection: []*pb.ShardState{{ShardId: 1, RPCAddresses: addrs}}}, nil
+}
+
+// addresses of replicas that are down; the ports stay reserved for the whole test so that no other
+// process on this machine can start listening there.
+//   refused: a bound TCP socket that never listens: every connect is answered with RST
+//   silent:  a listener that accepts and then says nothing: the HTTP/2 handshake of the blocking
+//            dial never completes
+func vDeadAddresses(t *testing.T) (map[string]string, func()) {
+	out := map[string]string{}
+	closers := make([]func(), 0)
+	fd, err := syscall.Socket(syscall.AF_INET, syscall.SOCK_STREAM, 0)
+	if err == nil {
+		err = syscall.Bind(fd, &syscall.SockaddrInet4{Port: 0, Addr: [4]byte{127, 0, 0, 1}})
+		if err == nil {
+			if sa, e2 := syscall.Getsockname(fd); e2 == nil {
+				if s4, ok := sa.(*syscall.SockaddrInet4); ok {
+					out["refused"] = fmt.Sprintf("127.0.0.1:%d", s4.Port)
+				}
+			}
+		}
+		closers = append(closers, func() { syscall.Close(fd) })
+	}
+	if lis, err := net.Listen("tcp", "127.0.0.1:0"); err == nil {
+		out["silent"] = lis.Addr().String()
+		var mu sync.Mutex
+		conns := make([]net.Conn, 0)
+		go func() {
+			for {
+				c, err := lis.Accept()
+				if err != nil {
+					return
+				}
+				mu.Lock()
+				conns = append(conns, c)
+				mu.Unlock()
+			}
+		}()
+		closers = append(closers, func() {
+			lis.Close()
+			mu.Lock()
+			for _, c := range conns {
+				c.Close()
+			}
+			mu.Unlock()
+		})
+	}
+	if len(out) != 2 {
+		t.Fatalf("cannot reserve addresses of dead replicas: %v", out)
+	}
+	return out, func() {
+		for _, f := range closers {
+			f()
+		}
+	}
 }
 
 type vNodehost struct {
@@ -344,6 +484,10 @@ func (s *vNodehost) GetSession(ctx context.Context, req *mr.SessionRequest) (*mr
 	h := vCur.Load().(*vH)
 	if c := atomic.SwapInt32(&h.failSession, 0); c != 0 {
 		return nil, status.Error(codes.Code(c-1), "injected session failure")
+	}
+	if atomic.SwapInt32(&h.hangSession, 0) == 1 {
+		<-ctx.Done()
+		return nil, status.Error(codes.DeadlineExceeded, "session request not answered in time")
 	}
 	// SyncGetSession: a fresh client id, registered with the state machine, ready for its first proposal
 	h.mu.Lock()
@@ -529,15 +673,30 @@ func (h *vH) atServer(pid uint64) bool {
 
 const vLong = 120 * time.Second
 const vShort = 150 * time.Millisecond
+const vDial = 60 * time.Millisecond
 
-func (h *vH) schedule(mode string) {
+// S: plain round; SH: with the history mutex held for a while; ST: operations started in this round
+// have a short deadline; SD:<kind>: short deadline and the Drummer hands out a replica that is down
+// (every operation of the round fails at the connection stage unless its process already holds a
+// connection - it never does: the address was never alive); SM:<kind>: short deadline, two replicas,
+// one of them down (the coordinator picks the write and the read target at random).
+func (h *vH) schedule(mode string, kind string) {
 	c := h.c
 	c.mu.Lock()
 	n0 := len(c.events)
 	c.mu.Unlock()
-	if mode == "ST" {
+	short := mode == "ST" || mode == "SD" || mode == "SM"
+	if short {
 		atomic.StoreInt32(&h.shortRound, 1)
 		timeout = vShort
+		if mode == "SD" {
+			timeout = vDial
+		}
+	}
+	if mode == "SD" {
+		h.drummer.setMode("D:" + kind)
+	} else if mode == "SM" {
+		h.drummer.setMode("M:" + kind)
 	}
 	h.logf("sched-begin %s", mode)
 	if mode == "SH" {
@@ -570,9 +729,11 @@ func (h *vH) schedule(mode string) {
 			h.logf("stuck %d", p)
 		}
 	}
-	if mode == "ST" {
+	if short {
 		timeout = vLong
 		atomic.StoreInt32(&h.shortRound, 0)
+		atomic.StoreInt32(&h.hangSession, 0)
+		h.drummer.setMode("")
 	}
 }
 
@@ -633,8 +794,14 @@ func (h *vH) run(cmds []string) {
 	for _, cmd := range cmds {
 		f := strings.Split(cmd, ":")
 		switch f[0] {
-		case "S", "SH", "ST":
-			h.schedule(f[0])
+		case "S", "SH", "ST", "SD", "SM":
+			kind := "refused"
+			if len(f) > 1 {
+				kind = f[1]
+			}
+			h.schedule(f[0], kind)
+		case "FH": // the next GetSession hangs until its client gives up (cleared at the end of the next short round)
+			atomic.StoreInt32(&h.hangSession, 1)
 		case "FS":
 			code := codes.Unavailable
 			if len(f) > 1 {
@@ -741,7 +908,10 @@ func TestVerifRecorderProto(t *testing.T) {
 	}
 	addr := lis.Addr().String()
 	srv := grpc.NewServer()
-	pb.RegisterDrummerServer(srv, &vDrummer{addr: addr})
+	deadAddrs, closeDead := vDeadAddresses(t)
+	defer closeDead()
+	drummer := &vDrummer{addr: addr, dead: deadAddrs}
+	pb.RegisterDrummerServer(srv, drummer)
 	mr.RegisterNodehostAPIServer(srv, &vNodehost{})
 	go srv.Serve(lis)
 	defer srv.Stop()
@@ -794,7 +964,8 @@ func TestVerifRecorderProto(t *testing.T) {
 			}()
 			rand.Seed(seed)
 			c := NewCoordinator(context.Background(), np, 1, []string{addr})
-			h = &vH{c: c, sessions: map[uint64]*vSession{}}
+			drummer.setMode("")
+			h = &vH{c: c, sessions: map[uint64]*vSession{}, drummer: drummer}
 			vCur.Store(h)
 			for _, p := range c.processes {
 				pid := p.id
